@@ -589,6 +589,77 @@ pub fn main(args: &[String]) {
         cases.extend(f.drain(..));
         eprintln!("sem: differential pre-filter over {} ADFs flagged {}", total, prefiltered);
     }
+    // C01-C03, C05: the same idea across back-ends and variants. The library holds several independent implementations of every
+    // semantics (native / biodivine / hybrid, enumerate-and-check / rewriting / nogood search): many more ADFs than TLC could judge
+    // are run through all of them, and every ADF on which two of them DISAGREE is recorded and judged by TLC against the definition.
+    // Agreement proves nothing and is not recorded.
+    let xprop = props.iter().find(|p| ["C01", "C02", "C03", "C05"].contains(&p.as_str())).cloned();
+    let mut xflagged = 0usize;
+    let mut xtotal = 0usize;
+    if let (None, Some(xp)) = (&replay_specs, xprop.clone()) {
+        if tier != "feat" {
+            xtotal = if thorough { 1_200_000 } else { 200_000 };
+            let nthreads = std::thread::available_parallelism().map(|x| x.get()).unwrap_or(4).min(12);
+            let found: Arc<Mutex<Vec<AdfCase>>> = Arc::new(Mutex::new(Vec::new()));
+            let mut hs = Vec::new();
+            for t in 0..nthreads {
+                let found = found.clone();
+                let xp = xp.clone();
+                let seed_t = seed ^ (0xbac0_0000 + t as u64);
+                let share = xtotal / nthreads;
+                hs.push(std::thread::Builder::new().stack_size(64 * 1024 * 1024).spawn(move || {
+                    let mut rng = StdRng::seed_from_u64(seed_t);
+                    for k in 0..share {
+                        let n = [3, 3, 4, 4, 5][k % 5];
+                        let case = if k % 2 == 0 {
+                            let vars: Vec<usize> = (0..n).collect();
+                            AdfCase { id: format!("x{}_{}_{}", n, t, k), labels: default_labels(n),
+                                      asts: (0..n).map(|_| { let kk = rng.gen_range(0..=3usize.min(n)); let mut sup = vars.clone();
+                                                            for i in 0..kk { let j = rng.gen_range(i..n); sup.swap(i, j); } sup.truncate(kk);
+                                                            from_tt(rand_tt(&mut rng, kk), &sup, rng.gen_range(0..4)) }).collect() }
+                        } else {
+                            rand_adf(&mut rng, n, format!("x{}_{}_{}", n, t, k))
+                        };
+                        let text = case.text();
+                        let differs = std::panic::catch_unwind(std::panic::AssertUnwindSafe(|| {
+                            let parser = AdfParser::default();
+                            parser.parse()(&text).unwrap();
+                            let sorted = |mut v: Vec<Vec<Term>>| { v.sort(); v };
+                            let tvs = |v: Vec<Vec<Term>>| -> Vec<Vec<u8>> { v.iter().map(|m| m.iter().map(|t| if t.is_truth_value() { if t.is_true() { 1 } else { 0 } } else { 2 }).collect()).collect() };
+                            let mut nat = Adf::from_parser(&parser);
+                            let bio = BdAdf::from_parser(&parser);
+                            let mut hyb = bio.hybrid_step_opt(false);
+                            let answers: Vec<Vec<Vec<u8>>> = match xp.as_str() {
+                                "C01" => vec![tvs(vec![nat.grounded()]), tvs(vec![bio.grounded()]), tvs(vec![hyb.grounded()])],
+                                "C02" => vec![tvs(sorted(nat.complete().collect())), tvs(sorted(bio.complete().collect())), tvs(sorted(hyb.complete().collect()))],
+                                "C03" => vec![tvs(sorted(nat.stable().collect())), tvs(sorted(nat.stable_with_prefilter().collect())), tvs(sorted(bio.stable().collect())),
+                                              tvs(sorted(bio.stable_bdd_representation())), tvs(sorted(nat.stable_bdd_representation(&bio))), tvs(sorted(hyb.stable().collect()))],
+                                _ => vec![tvs(sorted(nat.stable().collect())), tvs(sorted(nat.stable_nogood(Heuristic::Simple).collect())),
+                                          tvs(sorted(nat.stable_nogood(Heuristic::MinModMinPathsMaxVarImp).collect())),
+                                          tvs(sorted(hyb.stable_nogood(Heuristic::MinModMaxVarImpMinPaths).collect()))],
+                            };
+                            answers.iter().any(|a| *a != answers[0])
+                        }))
+                        .unwrap_or(true);
+                        if differs {
+                            let mut f = found.lock().unwrap();
+                            if f.len() < 300 {
+                                f.push(case);
+                            }
+                        }
+                    }
+                }).unwrap());
+            }
+            for h in hs {
+                let _ = h.join();
+            }
+            let mut f = found.lock().unwrap();
+            xflagged = f.len();
+            f.sort_by(|a, b| a.id.cmp(&b.id));
+            cases.extend(f.drain(..));
+            eprintln!("sem: back-end differential pre-filter over {} ADFs flagged {}", xtotal, xflagged);
+        }
+    }
     let disabled = Mutex::new(Vec::new());
     let mut f = std::io::BufWriter::new(std::fs::File::create(&out).expect("cannot create out file"));
     // parallel over cases with a small pool; output order is by case index (deterministic)
@@ -622,6 +693,9 @@ pub fn main(args: &[String]) {
         if let Some(v) = v {
             writeln!(f, "{}", v).unwrap();
         }
+    }
+    if xtotal > 0 {
+        writeln!(f, "{}", json!({"kind": "stat", "id": "xprefilter", "prefilter_adfs": xtotal, "flagged": xflagged})).unwrap();
     }
     if props.iter().any(|p| p == "C04") {
         writeln!(f, "{}", json!({"kind": "stat", "id": "prefilter", "prefilter_adfs": if thorough { 1_500_000 } else { 240_000 }, "flagged": prefiltered})).unwrap();
